@@ -68,6 +68,10 @@ def fn(a, tier):
                     await anyio.sleep(3)  # ends by itself
                 else:
                     await stop.wait()
+                    # asked to stop by its teardown callable: the task finishes its current work, which
+                    # includes ordinary (unshielded) checkpoints - it must not be cancelled meanwhile
+                    await anyio.sleep(0)
+                    await anyio.sleep(0)
             except BaseException as e:
                 log.append(("task_saw", i, "cancel" if isinstance(e, Cancelled) else type(e).__name__))
                 raise
